@@ -36,6 +36,26 @@ FoldVerdict(exitcode, crashed, out, relayed) ==
   ELSE IF ~crashed /\ exitcode = 0 /\ Len(out) > 0 /\ out[1] = Lr /\ MsgReport(out) = LK /\ relayed # LK THEN "PlainSuccessNotRelayed"
   ELSE ""
 
+(***************************************************************************)
+(* C18 (local spawner, relay): one record = one qmail-lspawn process given *)
+(* delivery commands cmds (delivery numbers) whose delivery program ends   *)
+(* as exp[i] = [ex, cr] (exit status, killed by a signal) after writing    *)
+(* arbitrary bytes; frames = the report frames <<number, letter>> found on *)
+(* the channel to the queue manager.  Exactly one report per command,      *)
+(* carrying its number, none for any other number - whatever the program   *)
+(* printed (a NUL in its output must not become a frame boundary) - and    *)
+(* the letter follows the exit status: success for 0 only, a crash is a    *)
+(* temporary failure.                                                      *)
+(***************************************************************************)
+LRunVerdict(cmds, exp, frames) ==
+  LET of(dn) == {j \in 1..Len(frames) : frames[j][1] = dn}
+      \* qmail-local(8) EXIT CODES: 0 success, 111 temporary, 100 permanent; any other status is a failure of either kind
+      want(i) == IF exp[i].cr THEN {LZ} ELSE IF exp[i].ex = 0 THEN {LK} ELSE IF exp[i].ex = 100 THEN {LD} ELSE IF exp[i].ex = 111 THEN {LZ} ELSE {LZ, LD}
+  IN IF \E j \in 1..Len(frames) : ~\E i \in 1..Len(cmds) : cmds[i] = frames[j][1] THEN "ReportForDeliveryNumberNobodyAskedFor"
+     ELSE IF \E i \in 1..Len(cmds) : Cardinality(of(cmds[i])) # 1 THEN "NotExactlyOneReportPerCommand"
+     ELSE IF \E i \in 1..Len(cmds) : frames[CHOOSE j \in of(cmds[i]) : TRUE][2] \notin want(i) THEN "ReportLetterDoesNotFollowExitStatus"
+     ELSE ""
+
 \* P: qmail-rspawn.c report()
 FoldP(exitcode, crashed, out) ==
   IF crashed THEN LZ
